@@ -4,8 +4,10 @@ package tiering
 
 import (
 	"context"
+	"database/sql"
 	"errors"
 	"io"
+	"strings"
 	"time"
 
 	zz "github.com/basekick-labs/arc/internal/zzverif"
@@ -23,18 +25,75 @@ func c12RecordMigration(s *MetadataStore, ctx context.Context, r *MigrationRecor
 func c12CompleteMigration(s *MetadataStore, ctx context.Context, id int64, err error) error {
 	return nil
 }
-func c12UpdateTier(s *MetadataStore, ctx context.Context, path string, t Tier) error {
-	if c12UpdateFails {
-		return errors.New("sqlite busy")
+
+// The tier column of the one metadata row, as the statements of UpdateTier treat it. The
+// real UpdateTier runs; its two statements are interpreted from their text: the lookup
+// SELECT fills database/measurement, the UPDATE ... WHERE path = ? sets the tier and reports
+// one affected row; an extra "AND tier != ?" makes it report zero rows when the tier is
+// already the new one. Any other statement is out of model.
+type c12Result struct{ n int64 }
+
+func (r c12Result) LastInsertId() (int64, error) { return 0, nil }
+func (r c12Result) RowsAffected() (int64, error) { return r.n, nil }
+
+func c12QueryRowContext(db *sql.DB, ctx context.Context, q string, args ...interface{}) *sql.Row {
+	return &sql.Row{}
+}
+func c12RowScan(r *sql.Row, dest ...interface{}) error {
+	if len(dest) == 2 {
+		*dest[0].(*string), *dest[1].(*string) = "db", "m"
+		return nil
 	}
-	c12Tier = t
+	zz.OutOfModel("row scan with other than two destinations")
 	return nil
 }
+func c12ExecContext(db *sql.DB, ctx context.Context, q string, args ...interface{}) (sql.Result, error) {
+	flat := strings.Join(strings.Fields(q), " ")
+	if c12HotStore != nil && !c12OtherDone && zz.Bool("another_attempt_completed_between_copy_and_update") {
+		// an overlapping attempt for the same file (scheduled cycle and manual trigger are not
+		// serialised) ran from start to finish while this one was between its copy and its
+		// metadata update: the cold copy is complete (it wrote the same bytes), the metadata
+		// says cold, the hot copy is deleted
+		c12OtherDone = true
+		c12Tier = TierCold
+		delete(c12HotStore.Files, c12Path)
+		zz.Reach("overlapped-inside-the-window")
+	}
+	if c12UpdateFails {
+		return nil, errors.New("sqlite busy")
+	}
+	switch flat {
+	case "UPDATE tier_files SET tier = ?, migrated_at = CURRENT_TIMESTAMP WHERE path = ?":
+		c12Tier = Tier(args[0].(string))
+		return c12Result{1}, nil
+	case "UPDATE tier_files SET tier = ?, migrated_at = CURRENT_TIMESTAMP WHERE path = ? AND tier != ?":
+		if string(c12Tier) == args[0].(string) {
+			return c12Result{0}, nil
+		}
+		c12Tier = Tier(args[0].(string))
+		return c12Result{1}, nil
+	}
+	zz.OutOfModel("metadata statement " + flat)
+	return nil, nil
+}
+
+var c12Overlapped bool
+var c12OtherDone bool
+var c12HotStore *zz.FakeBackend
+var c12StaleLookup bool // the lookup of an overlapping attempt happened before the other attempt moved the tier
+
 func c12GetFile(s *MetadataStore, ctx context.Context, path string) (*FileMetadata, error) {
 	if zz.Bool("metadata_lookup_fails") {
 		return nil, errors.New("sqlite busy")
 	}
-	return &FileMetadata{Path: c12Path, Database: "db", Measurement: "m", Tier: c12Tier, SizeBytes: 4}, nil
+	t := c12Tier
+	if c12StaleLookup {
+		// only the lookup at the start of the overlapping attempt is stale; a later one
+		// (the rollback's) reads the current row
+		c12StaleLookup = false
+		t = TierHot
+	}
+	return &FileMetadata{Path: c12Path, Database: "db", Measurement: "m", Tier: t, SizeBytes: 4}, nil
 }
 func c12Recent(s *MetadataStore, ctx context.Context, tier Tier, window time.Duration) ([]FileMetadata, error) {
 	if c12Tier == tier {
@@ -72,8 +131,9 @@ func VerifC12Migrate() {
 	hot := c12Hot{zz.NewFakeBackend()}
 	cold := zz.NewFakeBackend()
 	hot.Files[c12Path] = content
+	c12HotStore, c12OtherDone = hot.FakeBackend, false
 	c12Tier = TierHot
-	mgr := &Manager{hotBackend: hot, coldBackend: cold, metadata: &MetadataStore{}, logger: zerolog.Nop()}
+	mgr := &Manager{hotBackend: hot, coldBackend: cold, metadata: &MetadataStore{tierCache: map[string]*tierCacheEntry{}}, logger: zerolog.Nop()}
 	m := NewMigrator(&MigratorConfig{Manager: mgr, Logger: zerolog.Nop()})
 	hot.Faults = true
 	hot.NoFault["exists"] = true
@@ -81,16 +141,24 @@ func VerifC12Migrate() {
 	c12UpdateFails = zz.Bool("metadata_update_fails")
 	err := m.MigrateFile(context.Background(), MigrationCandidate{Path: c12Path, Database: "db", Measurement: "m", SizeBytes: 4, CurrentTier: TierHot, TargetTier: TierCold})
 	cand := MigrationCandidate{Path: c12Path, Database: "db", Measurement: "m", SizeBytes: 4, CurrentTier: TierHot, TargetTier: TierCold}
+	c12Overlapped = false
 	second := zz.Bool("stale_candidate_migrated_again")
 	if second {
 		// a cron cycle and a manual migrate both listed the file while it was hot: the
 		// second one works through its stale candidate after the first has finished
 		cold.Faults = zz.Bool("cold_faults_2")
 		c12UpdateFails = zz.Bool("metadata_update_fails_2")
+		// ... or overlaps with it: its "already migrated?" lookup ran while the file was
+		// still hot, the rest of it runs after the first attempt finished
+		c12StaleLookup = zz.Bool("second_attempt_overlapped_the_first")
+		c12Overlapped = c12StaleLookup
 		_ = m.MigrateFile(context.Background(), cand)
+		c12StaleLookup = false
 		zz.Reach("second-attempt")
 	}
 	hot.Faults, cold.Faults, c12UpdateFails = false, false, false
+	interleaved := c12OtherDone
+	c12HotStore = nil
 
 	check := func(when string) {
 		var holder map[string][]byte
@@ -102,7 +170,17 @@ func VerifC12Migrate() {
 		got, ok := holder[c12Path]
 		zz.Assert(ok && zz.EqBytes(got, content), "the complete file is not readable from the tier the metadata names ("+when+")")
 	}
-	check("after the migration")
+	// Between the attempts and reconciliation the property asks for the complete contents in
+	// at least one tier. That the metadata-named tier holds them is required of a single
+	// attempt and after reconciliation; two overlapping attempts of which the second fails
+	// its metadata update may leave the metadata pointing at the tier its rollback emptied
+	// until reconciliation repairs it (the file is still complete in the other tier).
+	hg, hok := hot.Files[c12Path]
+	cg, cok := cold.Files[c12Path]
+	zz.Assert((hok && zz.EqBytes(hg, content)) || (cok && zz.EqBytes(cg, content)), "the complete file is readable from no tier (after the migration)")
+	if !(second && c12Overlapped) && !interleaved {
+		check("after the migration")
+	}
 	if err == nil {
 		zz.Assert(c12Tier == TierCold, "a migration that reported success left the metadata on the source tier")
 	}
